@@ -1,5 +1,6 @@
 (* C05 — with stability requested the solver searches exactly the stable matchings. *)
-From MP Require Import LP.Canon Proofs.LPSound Proofs.StabProofs Proofs.StabRun Props.Examples.
+From MP Require Import LP.Canon LP.Oracle Run.Main Text.Render Proofs.LPSound Proofs.StabProofs Proofs.StabRun Proofs.CommandLine
+                       Props.Examples.
 Local Open Scope list_scope. Open Scope Z_scope.
 
 (* the constraint builder never fails on two-sided instances *)
@@ -33,6 +34,21 @@ Theorem C05_reported_stable : forall M o solve out,
   stable_b M (matching_of M (val_fun (out_vals out))) = true.
 Proof. exact reported_stable. Qed.
 Print Assumptions C05_reported_stable.
+
+(* on the Solver object: from the command line with -stab -twopl on a two-sided file of the documented format, an
+   Optimal solve prints a stable matching *)
+Theorem C05_command_line : forall c A trailer t0 limit e s s',
+  acceptable_ns (c_ns c) (c_twopl c) (c_stab c) = true ->
+  wf_ast (c_na c) (c_twopl c) A = true ->
+  wf (denote (c_na c) (c_twopl c) A) = true -> two_sided (denote (c_na c) (c_twopl c) A) = true ->
+  c_bf c = false -> c_stab c = true ->
+  milp_ok (denote (c_na c) (c_twopl c) A) (e_solve e) ->
+  solver_new c (Some (render (c_na c) A trailer)) t0 = SReady s -> do_solve s limit e = Ok s' ->
+  s_status s' = "Optimal"%string ->
+  stable_b (denote (c_na c) (c_twopl c) A)
+           (matching_of (denote (c_na c) (c_twopl c) A) (val_fun (s_vals s'))) = true.
+Proof. exact command_line_stable. Qed.
+Print Assumptions C05_command_line.
 
 Example C05_example :
   wf ex_inst = true /\ two_sided ex_inst = true /\ stable_b ex_inst ex_matching = true /\
